@@ -23,7 +23,8 @@ try:
             print("demo %-9s exit=%d %s" % (name, d.returncode, (d.stdout.strip().splitlines() or [""])[-1][:100]))
     for c in checks:
         env = dict(os.environ, NFC_SRC=os.path.join(work, "src"))
-        p = subprocess.run(["./check", c, "--tier", tier], capture_output=True, text=True, env=env, cwd="/verif", timeout=3600)
+        only = ["--only", os.environ["SEED_ONLY"]] if os.environ.get("SEED_ONLY") else []
+        p = subprocess.run(["./check", c, "--tier", tier] + only, capture_output=True, text=True, env=env, cwd="/verif", timeout=3600)
         lines = [l for l in p.stdout.splitlines() if l.startswith(("VIOLATION", "  label", "INCONCLUSIVE", "HARNESS", "KNOWN"))]
         print("check %s exit=%d" % (c, p.returncode))
         for l in lines[:8]:
